@@ -116,6 +116,50 @@ def r03_1_skip_set(ctx):
     ctx.require_min("R03.1", 6)
 
 
+def r03_1b_slot_classes(ctx):
+    ctx.rule("R03.1b", "slot classification is by the number of routines that reference the slot: for 2..4 routines whose graphs (straight-line, branching, looping) hold one slot for every non-empty subset of the routines, collectScratchSlots returns as global exactly the slots of subsets with more than one routine, and as local to r exactly the slots referenced by r alone")
+    css = ctx.model.find_func("collectScratchSlots", "pyteal.compiler.scratchslots")
+    ctx.analysed(css.fq)
+    OpS = op_sym(ctx.model)
+    for k in (2, 3, 4):
+        routines = [None] + [Sym(f"sub{i}") for i in range(1, k)]
+        subsets = [c for r in range(1, k + 1) for c in itertools.combinations(range(k), r)]
+        for shape in ("line", "branch", "loop"):
+            B = Blocks()
+            slots = {c: slot("in-" + "".join(map(str, c))) for c in subsets}
+            prog = {}
+            for i, r in enumerate(routines):
+                mine = [slots[c] for c in subsets if i in c]
+                ops = [mkop(OpS, "store" if j % 2 == 0 else "load", sl) for j, sl in enumerate(mine)]
+                half = len(ops) // 2
+                if shape == "line":
+                    start = B.block(f"r{i}", ops)
+                elif shape == "branch":
+                    join = B.block(f"r{i}j", ops[half:])
+                    t, f_ = B.block(f"r{i}t", ops[:half], [join]), B.block(f"r{i}f", [], [join])
+                    start = B.block(f"r{i}", [mkop(OpS, "int", 1)], [t, f_])
+                else:
+                    head = B.block(f"r{i}h", [mkop(OpS, "int", 1)])
+                    body = B.block(f"r{i}b", ops[half:], [head])
+                    exit_ = B.block(f"r{i}x", ops[:half])
+                    B.succ[head] = [body, exit_]
+                    start = B.block(f"r{i}", [], [head])
+                prog[r] = start
+            val, _me = run_function(css.node, {"subroutineBlocks": prog}, make_oracle(OpS, B), css.fq)
+            q.need(isinstance(val, tuple) and len(val) == 2, f"{css.fq}: does not return (global, local)")
+            gl, loc = set(val[0]), {r: set(v) for r, v in val[1].items()}
+            want_g = {slots[c] for c in subsets if len(c) > 1}
+            want_l = {r: {slots[(i,)]} for i, r in enumerate(routines)}
+            bad = []
+            if gl != want_g:
+                bad.append(f"global: missing {sorted(x.name for x in want_g - gl)}, extra {sorted(x.name for x in gl - want_g)}")
+            for r in routines:
+                if loc.get(r) != want_l[r]:
+                    bad.append(f"local to {r.name if r is not None else 'main'}: {sorted(x.name for x in loc.get(r, set()))}")
+            ctx.check(not bad, "R03.1b", f"collectScratchSlots[{k} routines,{shape}]", "; ".join(bad[:3]), css.where, fact={"slots": len(slots), "global": len(gl)})
+    ctx.require_min("R03.1b", 9)
+
+
 def _run_optimizer(ctx, OpS, B, start, blocks, skip, version=10):
     ago = ctx.model.find_func("apply_global_optimizations", "pyteal.compiler.optimizer.optimizer")
     mod = ago.module
@@ -333,6 +377,7 @@ def r03_4_defaults(ctx):
 
 def run(ctx):
     r03_1_skip_set(ctx)
+    r03_1b_slot_classes(ctx)
     r03_2_dependency_scan(ctx)
     r03_3_cancellation(ctx)
     r03_4_defaults(ctx)
